@@ -23,6 +23,7 @@ import BRV.Proofs.RepoWork
 import BRV.Proofs.RepoExample
 import BRV.Proofs.ForestStep
 import BRV.Proofs.ForestClean
+import BRV.Proofs.ForestTrim
 
 namespace BRV.Repo
 
@@ -744,21 +745,27 @@ inductive FOp
   | submit (h : Hdr) (ok : Bool)
   | clean (depth : Int)
   | save
+  | mark (id : Nat)
+  | unmark (id : Nat)
 
 def applyF (r : Repo) : FOp → Repo
   | .submit h ok => (processHeader r h ok).1
   | .clean d => (cleanWith r d).1
   | .save => (save r).1
+  | .mark id => (markInvalid r id).1
+  | .unmark id => markNotInvalid r id
 
 /-- the history condition: no internal error; every Clean (explicit or automatic) and every Save runs while
-    no reorganisation is pending (the best branch is the root branch heading the list). -/
+    no reorganisation is pending (the best branch is the root branch heading the list); a mark succeeds. -/
 def FHist : Repo → List FOp → Prop
   | _, [] => True
   | r, op :: rest =>
     (match op with
      | .submit h ok => (processHeader r h ok).2.verdict.settled = true ∧ CleanRootFirst r h ok
      | .clean d => 0 ≤ d ∧ RootFirst r
-     | .save => RootFirst r) ∧
+     | .save => RootFirst r
+     | .mark id => (markInvalid r id).2 = none
+     | .unmark _ => True) ∧
     FHist (applyF r op) rest
 
 theorem tipMax_of_frame (r r' : Repo) (hm : TipMax r) (hb : r'.branches = r.branches) (hl : r'.longest = r.longest)
@@ -770,11 +777,37 @@ theorem tipMax_of_frame (r r' : Repo) (hm : TipMax r) (hb : r'.branches = r.bran
   obtain ⟨wb, h1, h2⟩ := hall b hbm
   exact ⟨wb, by rw [hw b hbm]; exact h1, h2⟩
 
-/-- **C01 over forest histories with maintenance**: submissions (forks, overtakes, automatic cleans), explicit
-    Cleans with any depth and Saves — complete or failed at any stage —, from any well-linked state with a
-    maximal tip (genesis, or what Load builds from any consistent image), of any length: the tracked forest
-    stays well linked and the reported tip maximal, as long as every Clean and Save runs while no
-    reorganisation is pending. -/
+/-- a successful mark leaves the tip maximal among the branches that remain. -/
+theorem tipMax_markInvalid (r : Repo) (hm : TipMax r) (id : Nat) (hs : (markInvalid r id).2 = none) :
+    TipMax (markInvalid r id).1 := by
+  unfold markInvalid at hs ⊢
+  split
+  · exact hm
+  · have hm1 : TipMax (saveInvalid { r with invalid := r.invalid ++ [id] }) := tipMax_of_frame r _ hm rfl rfl (fun _ _ => rfl)
+    rename_i hc
+    rw [if_neg hc] at hs
+    dsimp only at hs ⊢
+    cases hfind : (saveInvalid { r with invalid := r.invalid ++ [id] }).branchesFind id with
+    | none => exact hm1
+    | some x =>
+      obtain ⟨bi, h⟩ := x
+      rw [hfind] at hs
+      simp only at hs ⊢
+      cases ht : trim (saveInvalid { r with invalid := r.invalid ++ [id] }) bi h with
+      | error e => rw [ht] at hs; cases hs
+      | ok r2 =>
+        rw [ht] at hs
+        simp only at hs ⊢
+        cases hl : longestOf r2.arena r2.branches with
+        | none => rw [hl] at hs; cases hs
+        | some lg => exact tipMax_of_longestOf r2 lg hl
+
+/-- **C01 over forest histories with maintenance and marks**: submissions (forks, overtakes, automatic
+    cleans), explicit Cleans with any depth and Saves — complete or failed at any stage —, marking headers
+    invalid and unmarking them, from any well-linked state with a maximal tip (genesis, or what Load builds
+    from any consistent image), of any length: the tracked forest stays well linked and the reported tip is a
+    tracked branch of maximal accumulated work among those that remain, as long as every Clean and Save runs
+    while no reorganisation is pending. -/
 theorem C01_forest_ops (ops : List FOp) : ∀ (r : Repo), ForestOK r → TipMax r → FHist r ops →
     ForestOK (ops.foldl applyF r) ∧ TipMax (ops.foldl applyF r) := by
   induction ops with
@@ -791,6 +824,13 @@ theorem C01_forest_ops (ops : List FOp) : ∀ (r : Repo), ForestOK r → TipMax 
       exact ih _ h1 (tipMax_of_frame r _ hm h2 h3 h4) hrest
     | save =>
       obtain ⟨h1, h2, h3⟩ := save_frame_rootFirst r hop
-      exact ih _ (forestOK_of_frame r _ hf h1 h2) (tipMax_of_frame r _ hm h2 h3 (fun x _ => by show lastWork (save r).1.arena x = _; rw [h1])) hrest
+      exact ih _ (forestOK_of_frame r _ hf h1 h2)
+        (tipMax_of_frame r _ hm h2 h3 (fun x _ => by show lastWork (save r).1.arena x = _; rw [h1])) hrest
+    | mark id =>
+      exact ih _ (forestOK_markInvalid r hf id) (tipMax_markInvalid r hm id hop) hrest
+    | unmark id =>
+      obtain ⟨h1, h2, h3⟩ := markNotInvalid_frame r id
+      exact ih _ (forestOK_of_frame r _ hf h1 h2)
+        (tipMax_of_frame r _ hm h2 h3 (fun x _ => by show lastWork (markNotInvalid r id).arena x = _; rw [h1])) hrest
 
 end BRV.Repo
